@@ -425,6 +425,8 @@ impl CoreInner {
 		//   Thread B (flush):  holds manifest.write, waits imm.write
 		// By acquiring manifest.read first, we ensure no circular wait.
 		let table_id = self.level_manifest.read()?.next_table_id();
+		#[cfg(surrealkv_verif)]
+		crate::verif::yp_held("rotate:before_immutable_insert");
 		let mut immutable_memtables = self.immutable_memtables.write()?;
 		immutable_memtables.add(table_id, flushed_wal_number, Arc::clone(&flushed_memtable));
 
